@@ -85,6 +85,18 @@ def c03_judge(case, ans):
     return None
 
 
+def c02_judge(case, ans):
+    """witness cases of the recorded findings F25–F27 (the model mirrors the behaviour, so agreement
+    proves nothing): the outer name of the input says what the text of C02 requires the answer to mention"""
+    if '("wdup")' in case and "zzz_unknown" not in ans:
+        return "the mistake inside the repeated item (unknown name zzz_unknown) is not reported: dropped because the repetition was found first"
+    if '("wcount")' in case and "zzz_unknown" not in ans:
+        return "the mistake inside the first item (unknown name zzz_unknown) is not reported: dropped because the wrong item count was found first"
+    if '("windex")' in case and not ("[0]" in ans and "[1]" in ans):
+        return "two rejected occurrences of a `multiple` field are not located at its occurrences [0] and [1]"
+    return None
+
+
 def no_spans(x):
     return sexp.drop_tags(x, {"sp", "span"})
 
@@ -111,6 +123,7 @@ CONFIG = {
             {"name": "c16m", "n": {"quick": 4000, "thorough": 80000},
              "trivial": lambda case, ans: not ans.startswith("(err")},
         ],
+        "impl_judge": c02_judge,
         "rule": "same corpus; inputs are valid compositions with 1..4 injected mistakes (unknown name at edit distance 1..2 of a valid name, repeated item, bare literal, dropped required item, rejected value) plus whole-value samples with mistakes inside nested receivers, enum variants and map values; non-trivial = the input is rejected; distinct by case text",
         "assumptions": ["strsim scores are oracle rows", "WF as for C01"],
     },
